@@ -649,3 +649,7 @@ seeded('C15', 'LogNormal density without the 1/x factor', 'R15.5',
        [('distributions', "                    / (x * self._c2pisigma2))", "                    / self._c2pisigma2)")], key='DistLogNormal')
 benign('C15', 'LogNormal density with the exponent written through the field sigma',
        [('distributions', "            return (math.exp(-1 * xminmu * xminmu / self._c2sigma2) ", "            return (math.exp(-(xminmu ** 2) / (2.0 * self._sigma * self._sigma)) ")])
+seeded('C14', 'Beta draw as a ratio that can exceed 1', 'R14.5',
+       [('distributions', "        return y1 / (y1 + y2)", "        return (y1 + y2) / (y1 + 1.0)")], key='DistBeta')
+benign('C14', 'Beta draw with the sum named',
+       [('distributions', "        return y1 / (y1 + y2)", "        total = y1 + y2\n        return y1 / total")])
